@@ -77,6 +77,15 @@ theorem writeLoop_nofit (bs : Nat) (hbs : 0 < bs) (b a : List α) (e : List (Lis
   rw [writeLoop_fits bs hbs b [] _ hbne (by simpa using hb)]
   simp
 
+/-- A payload longer than a block that arrives at an empty active block is cut at the block size. -/
+theorem writeLoop_split (bs : Nat) (hbs : 0 < bs) (b : List α) (e : List (List α)) (hb : bs < b.length) :
+    writeLoop bs hbs b [] e = writeLoop bs hbs (b.drop bs) [] (e ++ [b.take bs]) := by
+  have hne : b ≠ [] := by intro h; subst h; simp at hb
+  have hn : min b.length (bs - 0) = bs := by omega
+  rw [writeLoop]
+  simp only [hne, dite_false, List.length_nil, true_or, dite_true, hn, List.nil_append, List.length_take]
+  rw [if_pos (Or.inl (by omega))]
+
 /-- Invariant of the writer state at API-call boundaries. -/
 structure Inv (bs : Nat) (s : State α) : Prop where
   /-- the active block is never full (a full block is queued at once) -/
@@ -197,5 +206,19 @@ theorem run_closed (bs : Nat) (hbs : 0 < bs) (s : State α) (ops : List (Op α))
   | cons op ops ih =>
     simp only [run]; rw [ih, step_closed]
     cases op <;> simp [hasClose]
+
+/-- Demonstration script for any block size > 1: one payload of `bs + 1` bytes, Flush, Close gives blocks
+of `bs`, 1 and 0 bytes. -/
+theorem demo_split (bs : Nat) (hbs : 1 < bs) :
+    ((run bs (by omega) State.init [Op.write (List.replicate (bs + 1) ()), Op.flush, Op.close]).1.emitted.map List.length)
+    = [bs, 1, 0] := by
+  have h1 : writeLoop bs (by omega) (List.replicate (bs + 1) ()) [] [] = ([()], [List.replicate bs ()]) := by
+    rw [writeLoop_split _ _ _ _ (by rw [List.length_replicate]; omega)]
+    rw [List.drop_replicate, List.take_replicate, Nat.add_sub_cancel_left, Nat.min_eq_left (Nat.le_succ _)]
+    rw [writeLoop_fits _ _ _ _ _ (by simp) (by simp; omega)]
+    have : ¬ (1 = bs) := by omega
+    simp [this]
+  simp only [run, step, write, flush, close, State.init, h1]
+  simp
 
 end Hts.Model.BgzfWriter
